@@ -117,6 +117,8 @@ fn gen_program(seed: u64, id: u64, focus: &str, thorough: bool) -> Program {
     let mut rng = Rng::derive(seed ^ 0xC0C0, id);
     let family: &'static str = match focus {
         "C05" => *rng.pick(&["readwrite", "readwrite", "read-vs-rewrites", "writers", "write-then-read"]),
+        // clean-up of reported orphans is one more party that unlinks blobs while commits run
+        "C04" => *rng.pick(&["writers", "writers", "writers", "mixed", "orphans"]),
         "C17" => "readwrite",
         "C06" => *rng.pick(&["readwrite", "writers", "readers-long"]),
         "C07" => *rng.pick(&["writers", "writers", "abort"]),
